@@ -234,6 +234,27 @@ func genC02(tier, out string, sum *Summary) {
 		sh.Add(fmt.Sprintf("BC %d %s %s %s %s", id, hx(expr), coqValue(doc), hasEnumText(expr), coqObs(o)))
 		sum.Index[strconv.Itoa(id)] = map[string]any{"expr": expr, "doc": toJSON(doc), "observed": obsJSON(o)}
 	})
+	// every window: find_first / find_last with every start and end around the ends of the subject (negative ones count
+	// from the end, those before the beginning are the beginning), on subjects with repeated and multi-byte matches
+	{
+		k := 0
+		for _, sub := range []struct{ s, p string }{{"abcabc", "c"}, {"abcabc", "bc"}, {"ab", "a"}, {"héllo wörld", "l"}, {"aaa", "aa"}, {"abc", "x"}, {"é€é€", "€"}} {
+			n := len([]rune(sub.s))
+			for a := -n - 2; a <= n+2; a++ {
+				for _, f := range []string{"find_first", "find_last"} {
+					run(fmt.Sprintf("%s(s, p, `%d`)", f, a), map[string]any{"s": sub.s, "p": sub.p}, false)
+					for b := -n - 2; b <= n+2; b++ {
+						k++
+						if tier != "thorough" && k%3 != 0 {
+							continue
+						}
+						run(fmt.Sprintf("%s(s, p, `%d`, `%d`)", f, a, b), map[string]any{"s": sub.s, "p": sub.p}, false)
+						sum.count("find-window")
+					}
+				}
+			}
+		}
+	}
 	// to_number on text that is, or nearly is, a JSON number: a number exactly for the JSON number grammar
 	// (no leading zeros, no bare exponent, no surrounding blanks, none of the words other parsers accept)
 	for _, x := range numberish(tier) {
@@ -507,7 +528,10 @@ var kindConvs = []kindConv{
 	intConv("int16", -32768, 32767, func(i int64) int16 { return int16(i) }),
 	intConv("int32", math.MinInt32, math.MaxInt32, func(i int64) int32 { return int32(i) }),
 	intConv("int64", math.MinInt64, math.MaxInt64, func(i int64) int64 { return i }),
-	intConv("uint", 0, math.MaxInt64, func(i int64) uint { return uint(i) }),
+	{"uint", func(n json.Number) (any, bool) { // 64 bits wide here: every value up to 2^64-1
+		u, err := strconv.ParseUint(string(n), 10, 64)
+		return uint(u), err == nil
+	}},
 	intConv("uint8", 0, 255, func(i int64) uint8 { return uint8(i) }),
 	intConv("uint16", 0, 65535, func(i int64) uint16 { return uint16(i) }),
 	intConv("uint32", 0, math.MaxUint32, func(i int64) uint32 { return uint32(i) }),
